@@ -108,7 +108,7 @@ class GeminiProtocol(BaseGopherProtocol):
                 url = self.query_prefix + url
         else:
             # Link to a different server.  Make it a gopher URL.
-            url = entry.geturl(self.server.server_name, 70)
+            url = entry.geturl(self.server.server_name, self.server.server_port)
 
         description = entry.getname() or ""
 
